@@ -144,12 +144,13 @@ def make_prof_class(rec, phase):
             except AttributeError:
                 return LineProfiler.add_function(self, func)
             cb = rec.cid(before)
-            LineProfiler.add_function(self, func)
+            result = LineProfiler.add_function(self, func)
             after = code_of(func)
             rec.note_padding(before, after)
             ca = rec.cid(after)
             if phase == 'A':
                 rec.ops.append(('G', cb, ca))
+            return result         # (transparent for callers that look at what add_function returns)
 
         if phase == 'A':
             # windows the PROGRAM opens and closes itself (`with prof:`, prof.enable_by_count() in its own files), as
@@ -217,6 +218,7 @@ class P:
         if self.phase == 'A':
             # from now on every execution of this function goes through the profiler's wrapper
             self.rec.ops.append(('W', self.rec.label(code_of(self.rawfn(name)))))
+        self._check_registered([name], 'the decorator')
 
     def _check_registered(self, names, how):
         # the intent of every registration entry point: afterwards the profiler knows THIS function object's code
